@@ -25,17 +25,19 @@ structure SysWF (cfg : SysConfig) (asts : Name → List Pat) : Prop where
   us : cfg.P.underscoreNames = true
   dcp : cfg.P.doubledCloseParen = true
   mdc : cfg.B.mdcWhole = true
-  printed : ∀ a ∈ cfg.routing.appenders, (cfg.app a).pattern = showPats (asts a)
-  wf : ∀ a ∈ cfg.routing.appenders, WF cfg.P (asts a)
+  printed : ∀ a ∈ cfg.routing.appenders, (cfg.app a).kind = .pattern → (cfg.app a).pattern = showPats (asts a)
+  wf : ∀ a ∈ cfg.routing.appenders, (cfg.app a).kind = .pattern → WF cfg.P (asts a)
 
 /-- chrono accepts the date formats of every pattern the record is actually encoded with (`DatesOk`
 of C09, asked only of the appenders that receive at least one copy of the record) -/
 def DatesOkFor (cfg : SysConfig) (asts : Name → List Pat) (r : SysRecord) : Prop :=
-  ∀ a ∈ cfg.routing.appenders, specCopies cfg a r ≠ 0 → DatesOk cfg.B r.env (asts a)
+  ∀ a ∈ cfg.routing.appenders, specCopies cfg a r ≠ 0 → (cfg.app a).kind = .pattern → DatesOk cfg.B r.env (asts a)
 
-/-- the compiled pattern of appender `a` -/
-def chunksFor (cfg : SysConfig) (asts : Name → List Pat) (a : Name) : List Chunk :=
-  compileL cfg.B (piecesOf [] (asts a))
+/-- the built encoder of appender `a`: the compiled printed AST, or the JSON encoder -/
+def chunksFor (cfg : SysConfig) (asts : Name → List Pat) (a : Name) : Encoder :=
+  match (cfg.app a).kind with
+  | .pattern => .pattern (compileL cfg.B (piecesOf [] (asts a)))
+  | .json => .json
 
 /-- normal form of the runtime state: quiescent writers over files with the given contents -/
 def stateOf (cfg : SysConfig) (asts : Name → List Pat) (content : Name → Bytes) : FilesState :=
@@ -97,26 +99,35 @@ theorem openApp_ok (cfg : SysConfig) (asts : Name → List Pat) (h : SysWF cfg a
     (ha : a ∈ cfg.routing.appenders) :
     openApp cfg a = .ok { enc := chunksFor cfg asts a,
                           file := { disk := Rolling.openContent (cfg.app a).mode (cfg.app a).pre, buf := [] } } := by
-  have hp := C09_parse_show cfg.cc h.cc cfg.P h.us h.dcp (asts a) (h.wf a ha)
-  simp [openApp, newEncoder, h.printed a ha, hp, omap, chunksFor, Rolling.FileAppender.build]
+  cases hk : (cfg.app a).kind with
+  | json => simp [openApp, hk, chunksFor, Rolling.FileAppender.build]
+  | pattern =>
+    have hp := C09_parse_show cfg.cc h.cc cfg.P h.us h.dcp (asts a) (h.wf a ha hk)
+    simp [openApp, hk, newEncoder, h.printed a ha hk, hp, omap, chunksFor, Rolling.FileAppender.build]
 
+/-- what the built encoder of `a` writes for a record is the specification's line -/
 theorem encode_ok (cfg : SysConfig) (asts : Name → List Pat) (h : SysWF cfg asts) (a : Name)
-    (ha : a ∈ cfg.routing.appenders) (r : SysRecord) (hd : DatesOk cfg.B r.env (asts a)) :
-    ∃ o, encList r.env r.record (chunksFor cfg asts a) = .ok o ∧
-      o.text = denotePats r.env r.record (asts a) := by
-  obtain ⟨o, ho, ht⟩ := C09_encode_parse_show cfg.cc h.cc cfg.P h.us h.dcp cfg.B h.mdc r.env r.record
-    (asts a) (h.wf a ha) hd
-  have hp := C09_parse_show cfg.cc h.cc cfg.P h.us h.dcp (asts a) (h.wf a ha)
-  simp only [Parse.run, newEncoder, hp, omap] at ho
-  exact ⟨o, ho, ht⟩
+    (ha : a ∈ cfg.routing.appenders) (r : SysRecord)
+    (hd : (cfg.app a).kind = .pattern → DatesOk cfg.B r.env (asts a)) :
+    encodeWith (chunksFor cfg asts a) r = .ok (specLine cfg asts a r) := by
+  cases hk : (cfg.app a).kind with
+  | json => simp [chunksFor, hk, encodeWith, specLine]
+  | pattern =>
+    obtain ⟨o, ho, ht⟩ := C09_encode_parse_show cfg.cc h.cc cfg.P h.us h.dcp cfg.B h.mdc r.env r.record
+      (asts a) (h.wf a ha hk) (hd hk)
+    have hp := C09_parse_show cfg.cc h.cc cfg.P h.us h.dcp (asts a) (h.wf a ha hk)
+    simp only [Parse.run, newEncoder, hp, omap] at ho
+    simp [chunksFor, hk, encodeWith, specLine, ho, ht]
 
 /-- the model's "compile once, encode per record" is the pattern area's `run` -/
 theorem encode_eq_run (cfg : SysConfig) (asts : Name → List Pat) (h : SysWF cfg asts) (a : Name)
-    (ha : a ∈ cfg.routing.appenders) (r : SysRecord) :
-    encList r.env r.record (chunksFor cfg asts a) =
+    (ha : a ∈ cfg.routing.appenders) (hk : (cfg.app a).kind = .pattern) (r : SysRecord) :
+    chunksFor cfg asts a = .pattern (compileL cfg.B (piecesOf [] (asts a))) ∧
+    encList r.env r.record (compileL cfg.B (piecesOf [] (asts a))) =
       Parse.run cfg.cc cfg.P cfg.B r.env r.record (cfg.app a).pattern := by
-  have hp := C09_parse_show cfg.cc h.cc cfg.P h.us h.dcp (asts a) (h.wf a ha)
-  simp only [Parse.run, newEncoder, h.printed a ha, hp, omap, chunksFor]
+  have hp := C09_parse_show cfg.cc h.cc cfg.P h.us h.dcp (asts a) (h.wf a ha hk)
+  refine ⟨by simp [chunksFor, hk], ?_⟩
+  simp only [Parse.run, newEncoder, h.printed a ha hk, hp, omap]
 
 /-! ### opening -/
 
@@ -140,12 +151,12 @@ theorem sysOpen_ok (cfg : SysConfig) (asts : Name → List Pat) (h : SysWF cfg a
 /-! ### one attachment (C03 + C09 + C04) -/
 
 /-- the file appender on a quiescent writer (C04_append_visible) -/
-theorem fileAppend_quiet (cs : List Chunk) (d : Bytes) (o : Out) :
+theorem fileAppend_quiet (cs : Encoder) (d : Bytes) (o : Bytes) :
     fileAppend { enc := cs, file := { disk := d, buf := [] } } o =
-      { enc := cs, file := { disk := d ++ utf8 o.text, buf := [] } } := by
-  have hv := Rolling.C04_append_visible { disk := d, buf := [] } [utf8 o.text] rfl
+      { enc := cs, file := { disk := d ++ o, buf := [] } } := by
+  have hv := Rolling.C04_append_visible { disk := d, buf := [] } [o] rfl
   simp only [fileAppend]
-  cases hw : Rolling.FileAppender.append { disk := d, buf := [] } [utf8 o.text] with
+  cases hw : Rolling.FileAppender.append { disk := d, buf := [] } [o] with
   | mk d' b' =>
     rw [hw] at hv
     simp only [Rolling.encBytes, List.flatten_cons, List.flatten_nil, List.append_nil] at hv
@@ -153,17 +164,18 @@ theorem fileAppend_quiet (cs : List Chunk) (d : Bytes) (o : Out) :
 
 theorem appendOne_stateOf (cfg : SysConfig) (asts : Name → List Pat) (h : SysWF cfg asts)
     (r : SysRecord) (c : Name → Bytes) (a : Name) (ha : a ∈ cfg.routing.appenders)
-    (hd : specAccepts (cfg.app a).thresholds r.level = true → DatesOk cfg.B r.env (asts a)) :
+    (hd : specAccepts (cfg.app a).thresholds r.level = true → (cfg.app a).kind = .pattern →
+      DatesOk cfg.B r.env (asts a)) :
     appendOne cfg r (stateOf cfg asts c) a =
       .ok (stateOf cfg asts fun b =>
-        if b = a ∧ specAccepts (cfg.app a).thresholds r.level = true then c b ++ specLine asts a r else c b) := by
+        if b = a ∧ specAccepts (cfg.app a).thresholds r.level = true then c b ++ specLine cfg asts a r else c b) := by
   have hg : getApp (stateOf cfg asts c).apps a =
       some { enc := chunksFor cfg asts a, file := { disk := c a, buf := [] } } := by
     simp only [stateOf]
     exact getApp_map _ (fun b => { enc := chunksFor cfg asts b, file := { disk := c b, buf := [] } }) a ha
   simp only [appendOne, hg, runChain_thresholds]
   by_cases hacc : specAccepts (cfg.app a).thresholds r.level = true
-  · obtain ⟨o, ho, ht⟩ := encode_ok cfg asts h a ha r (hd hacc)
+  · have ho := encode_ok cfg asts h a ha r (hd hacc)
     simp only [hacc, if_true, ho, and_true]
     congr 1
     simp only [stateOf]
@@ -173,7 +185,7 @@ theorem appendOne_stateOf (cfg : SysConfig) (asts : Name → List Pat) (h : SysW
     intro b _
     by_cases hb : b = a
     · subst hb
-      simp [fileAppend_quiet, specLine, ht]
+      simp [fileAppend_quiet]
     · simp [hb]
   · simp only [hacc, and_false, if_false]
     simp
@@ -183,11 +195,12 @@ theorem appendOne_stateOf (cfg : SysConfig) (asts : Name → List Pat) (h : SysW
 theorem deliverLoop_stateOf (cfg : SysConfig) (asts : Name → List Pat) (h : SysWF cfg asts)
     (r : SysRecord) (names : List Name) :
     ∀ (c : Name → Bytes), (∀ n ∈ names, n ∈ cfg.routing.appenders) →
-    (∀ n ∈ names, specAccepts (cfg.app n).thresholds r.level = true → DatesOk cfg.B r.env (asts n)) →
+    (∀ n ∈ names, specAccepts (cfg.app n).thresholds r.level = true → (cfg.app n).kind = .pattern →
+      DatesOk cfg.B r.env (asts n)) →
     deliverLoop cfg r (stateOf cfg asts c) names =
       .ok (stateOf cfg asts fun b => c b ++
         (List.replicate (if specAccepts (cfg.app b).thresholds r.level then names.count b else 0)
-          (specLine asts b r)).flatten) := by
+          (specLine cfg asts b r)).flatten) := by
   induction names with
   | nil =>
     intro c _ _
@@ -327,7 +340,7 @@ theorem appendOne_untouched (cfg : SysConfig) (r : SysRecord) (st st' : FilesSta
     · have hna : ¬ n = a := by
         intro e; subst e; rw [hn rfl] at hacc; cases hacc
       simp only [hacc, if_true] at h
-      cases he : encList r.env r.record s.enc with
+      cases he : encodeWith s.enc r with
       | ok o =>
         simp only [he, Outcome.ok.injEq] at h
         subst h
@@ -427,7 +440,7 @@ theorem specFile_congr (cfg cfg' : SysConfig) (asts : Name → List Pat) (happ :
     (rs : List SysRecord) : specFile cfg' asts a rs = specFile cfg asts a rs := by
   have hc : specContribution cfg' asts a = specContribution cfg asts a := by
     funext r
-    simp only [specContribution, specCopies_congr cfg cfg' happ hdel]
+    simp only [specContribution, specCopies_congr cfg cfg' happ hdel, specLine, happ]
   simp only [specFile, happ, hc]
 
 end Log4rs.System
